@@ -54,6 +54,12 @@ def check(run, tier):
             # quick tier: a seeded sample of the enumerated behaviours (thorough replays all of them)
             k = len(mprogs) // 400 + 1
             mprogs = mprogs[r.randrange(k)::k]
+        # what the enumerated behaviours contain (non-vacuity of the model: rejected operations are transitions too)
+        stats = run.extra.setdefault("model_outcomes", {})
+        for mp in mprogs:
+            for mo in mp["ops"]:
+                key = mo["op"] + ":" + mo["model"]["out"]
+                stats[key] = stats.get(key, 0) + 1
         run.extra.setdefault("model_behaviours_replayed", 0)
         run.extra["model_behaviours_replayed"] += len(mprogs)
         progs += mprogs
